@@ -175,6 +175,10 @@ def translate(repo_src):
            "if strategy is None and strategies is None:\n    effective_strategy = decorrelated_jitter(max_s=5.0)\nelse:\n    effective_strategy = strategy"]
     if [u(s) for s in ib[:3]] != pre:
         raise TranslationError("decorator.retry: operation name / default strategy have changed")
+    # which twin serves a function is decided by asyncio's test (it also knows callable objects marked as coroutine functions)
+    disp = [n for n in ib if isinstance(n, ast.If)]
+    if len(disp) != 2 or u(disp[1].test) != "asyncio.iscoroutinefunction(func)" or disp[1].orelse:
+        raise TranslationError("decorator.retry: the sync / async dispatch has changed")
     calls = [n for n in ast.walk(inner[0]) if isinstance(n, ast.Call) and u(n.func) in ("AsyncRetryPolicy", "RetryPolicy", "async_policy.call", "policy.call")]
     if sorted(u(c.func) for c in calls) != ["AsyncRetryPolicy", "RetryPolicy", "async_policy.call", "policy.call"]:
         raise TranslationError("decorator.retry: delegation sites")
